@@ -1,22 +1,17 @@
-(* C08/PassB.v — on the domain "the server sends no CAP NEW / CAP DEL":
-   CAP END is only ever sent when no capability request is outstanding *)
+(* C08/PassB.v — CAP END is only ever sent when no capability request is
+   outstanding: for EVERY message sequence (CAP NEW / CAP DEL included) and from
+   every state.  endCapabilityNegociation itself now refuses while a CAP REQ is
+   unanswered (fix of finding C08.F7); capUpkeep / _maybeStartSasl come back to
+   it when the answer arrives. *)
 From Coq Require Import List NArith ZArith Bool Arith Lia.
 Import ListNotations.
 Require Import Base.Wire Base.PyStr C08.Model C08.Frame.
 Open Scope N_scope.
 
-Definition answered (s : st) : Prop :=
-  forall x, In x (req s) -> In x (ack s) \/ In x (nak s).
-
-Record InvB (c : cfg) (s : st) : Prop := {
-  (* everything requested was advertised and is wanted *)
-  b_req : forall x, In x (req s) -> smem x (c_wanted c) = true /\ In x (map fst (ls s));
-  (* during the initial SASL exchange no request is outstanding *)
-  b_sasl : fsm s = INIT_SASL -> answered s
-}.
-
+(* the ghost event of a CAP END records req - (ack | nak) at that moment *)
 Definition OutB (o : outev) : Prop :=
-  match o with GEnd _ outstanding => outstanding = [] | _ => True end.
+  match o with GEnd _ outstanding _ => outstanding = [] | _ => True end.
+Definition TB (s : st) : Prop := True.
 
 Lemma In_sadd x y l : In x (sadd y l) <-> x = y \/ In x l.
 Proof.
@@ -45,326 +40,108 @@ Proof.
   rewrite H in H0. destruct H0.
 Qed.
 
-Lemma ssubset_In a b : ssubset a b = true -> forall x, In x a -> In x b.
-Proof. unfold ssubset. intros H x Hx. rewrite forallb_forall in H. apply smem_In. apply H. exact Hx. Qed.
-
-Lemma keys_dict_set {A} k (v : A) d x : In x (map fst d) -> In x (map fst (dict_set k v d)).
+(* the guard of endCapabilityNegociation (req - ack - nak empty) is the spec's
+   "nothing outstanding" (req - (ack | nak) empty) *)
+Lemma outstanding_nil s : outstanding s = [] -> sdiff (req s) (sunion (ack s) (nak s)) = [].
 Proof.
-  induction d as [|[k2 w] d IH]; cbn [dict_set map fst]; [intros []|].
-  destruct (seq_eqb k k2); cbn [map fst In]; intuition.
+  unfold outstanding. intro H. apply sdiff_nil. intros x Hx. apply In_sunion.
+  destruct (smem x (ack s)) eqn:E; [left; apply smem_In; exact E|right].
+  apply (sdiff_nil_inv _ _ H). unfold sdiff. apply filter_In. split; [exact Hx|rewrite E; reflexivity].
 Qed.
 
 Section B.
 Variable c : cfg.
-Notation ok := (okR (InvB c) OutB).
+Notation ok := (okR TB OutB).
 
 Ltac okstep :=
   match goal with
-  | |- okR _ _ (ret _) => apply ok_ret
-  | |- okR _ _ (raise _ _) => apply ok_raise
-  | |- okR _ _ (_ >>> _) => apply ok_andthen; [|intros ? ?]
-  | |- okR _ _ (if ?b then _ else _) => destruct b eqn:?
-  | |- okR _ _ (match ?x with _ => _ end) => destruct x eqn:?
+  | |- okR _ _ (ret _) => apply ok_ret; exact Logic.I
+  | |- okR _ _ (raise _ _) => apply ok_raise; exact Logic.I
+  | |- okR _ _ (emit _ (GEnd _ _ _)) => fail 1
+  | |- okR _ _ (emit _ _) => apply ok_emit; [exact Logic.I|exact Logic.I]
+  | |- okR _ _ (send _ _ _) => apply ok_emit; [exact Logic.I|exact Logic.I]
+  | |- okR _ _ (_ >>> _) => apply ok_andthen; [|intros ? _]
+  | |- okR _ _ (if ?b then _ else _) => destruct b
+  | |- okR _ _ (match ?x with _ => _ end) => destruct x
   end.
 
-Lemma InvB_fresh z : InvB c (fresh c z).
-Proof. split; cbn; [intros x []|discriminate]. Qed.
+Lemma b_transition tbl s : ok (transition tbl s).
+Proof. unfold transition. repeat okstep. Qed.
+Lemma b_expect l s : ok (expect l s).
+Proof. unfold expect. repeat okstep. Qed.
+Lemma b_queue s : ok (queue_connect c s).
+Proof. unfold queue_connect. repeat (first [apply b_transition | okstep]). Qed.
+Lemma b_reset s : ok (reset c s).
+Proof. apply b_queue. Qed.
+Lemma b_reconnect s srv w : ok (reconnect c s srv w).
+Proof. unfold reconnect. repeat (first [apply b_reset | okstep]). Qed.
 
-Lemma ok_send s cmd args : InvB c s -> ok (send s cmd args).
-Proof. intro H. apply ok_emit; [exact H|exact Logic.I]. Qed.
-
-Lemma ok_expect l s : InvB c s -> ok (expect l s).
-Proof. intro H. unfold expect. destruct (mem (fsm s) l); [apply ok_ret|apply ok_raise]; exact H. Qed.
-
-(* transitions that do not enter a SASL state keep the invariant *)
-Lemma ok_transition tbl s : avoids_sasl tbl = true -> InvB c s -> ok (transition tbl s).
+(* the one place a CAP END is produced *)
+Lemma b_endCap s : ok (endCap c s).
 Proof.
-  intros Ha [B1 B2]. unfold transition. destruct (fire tbl (fsm s)) as [t|] eqn:Ef; [|apply ok_raise; split; assumption].
-  apply ok_ret. split; cbn [set_fsm req ack nak ls fsm]; [exact B1|].
-  intro Ht. pose proof (avoids_sasl_fire _ _ _ Ha Ef) as Hn. rewrite Ht in Hn. discriminate.
+  unfold endCap. destruct (required_unauth c s); [apply b_reconnect|].
+  destruct (outstanding s) eqn:Eo; [|apply ok_ret; exact Logic.I].
+  unfold transition. destruct (fire gen.T08.EV_on_cap_end (fsm s)) as [t|]; [|rewrite andthen_raise; apply ok_raise; exact Logic.I].
+  rewrite andthen_ret. apply ok_andthen.
+  - apply ok_emit; [exact Logic.I|]. cbn [OutB set_fsm req ack nak]. apply outstanding_nil. exact Eo.
+  - intros s1 _. apply ok_emit; exact Logic.I.
 Qed.
 
-Lemma ok_transition_sasl s : answered s -> InvB c s -> ok (transition gen.T08.EV_on_sasl_cap s).
+Lemma b_tryNext s : ok (tryNextSasl c s).
+Proof. unfold tryNextSasl. repeat (first [apply b_transition | apply b_expect | apply b_endCap | okstep]). Qed.
+Lemma b_maybe s : ok (maybeStartSasl c s).
+Proof. unfold maybeStartSasl. repeat (first [apply b_transition | apply b_tryNext | apply b_endCap | okstep]). Qed.
+Lemma b_upkeep s : ok (capUpkeep c s).
+Proof. unfold capUpkeep. repeat (first [apply b_expect | apply b_reconnect | apply b_maybe | apply b_endCap | okstep]). Qed.
+Lemma b_sts s p : ok (onCapSts c s p).
+Proof. unfold onCapSts. repeat (first [apply b_transition | apply b_reconnect | okstep]). Qed.
+Lemma b_addcaps items : forall s, ok (addCapabilities c items s).
 Proof.
-  intros Hans [B1 B2]. unfold transition. destruct (fire gen.T08.EV_on_sasl_cap (fsm s)) as [t|]; [|apply ok_raise; split; assumption].
-  apply ok_ret. split; cbn [set_fsm req ack nak ls fsm]; [exact B1|intros _; exact Hans].
+  induction items as [|i items IH]; intro s; cbn [addCapabilities]; [okstep|].
+  apply ok_andthen; [|intros s1 _; apply IH].
+  repeat (first [apply b_sts | apply b_reconnect | okstep]).
+Qed.
+Lemma b_request s caps : ok (requestCaps s caps).
+Proof. unfold requestCaps. apply ok_fold; [okstep|intros; okstep]. Qed.
+Lemma b_ls s args : ok (doCapLs c s args).
+Proof. unfold doCapLs. repeat (first [apply b_addcaps | apply b_expect | apply b_endCap | apply b_request | okstep]). Qed.
+Lemma b_ack s args : ok (doCapAck c s args).
+Proof. unfold doCapAck. repeat (first [apply b_upkeep | okstep]). Qed.
+Lemma b_nak s args : ok (doCapNak c s args).
+Proof. unfold doCapNak. repeat (first [apply b_upkeep | okstep]). Qed.
+Lemma b_del s args : ok (doCapDel s args).
+Proof. unfold doCapDel. repeat okstep. Qed.
+Lemma b_new s args : ok (doCapNew c s args).
+Proof. unfold doCapNew. repeat (first [apply b_addcaps | apply b_request | okstep]). Qed.
+Lemma b_chunks s chunks : ok (send_chunks s chunks).
+Proof. unfold send_chunks. apply ok_fold; [okstep|intros; okstep]. Qed.
+Lemma b_auth s args b e : ok (doAuthenticate c s args b e).
+Proof.
+  unfold doAuthenticate. apply ok_andthen; [apply b_expect|intros s1 _].
+  destruct args as [|chunk rest]; [okstep|].
+  destruct (match dec s1 with Some d => d | None => ([], false) end) as [chunks ready].
+  repeat (first [apply b_chunks | okstep]).
 Qed.
 
-Lemma ok_queue_connect s : InvB c s -> ok (queue_connect c s).
+Theorem ok_step s m : ok (step c s m).
 Proof.
-  intro H. unfold queue_connect. destruct tables_avoid_sasl as [S1 _].
-  repeat (first [okstep | apply ok_send | apply ok_transition | apply ok_emit | assumption | exact Logic.I]).
-Qed.
-Lemma ok_reset s : ok (reset c s).
-Proof. unfold reset. apply ok_queue_connect. apply InvB_fresh. Qed.
-Lemma ok_reconnect s srv w : InvB c s -> ok (reconnect c s srv w).
-Proof. intro H. unfold reconnect. apply ok_andthen; [apply ok_emit; [exact H|exact Logic.I]|]. intros; apply ok_reset. Qed.
-
-Lemma answered_set_fsm s t : answered s -> answered (set_fsm s t).
-Proof. intro H. exact H. Qed.
-
-Lemma ok_endCap s : InvB c s -> answered s -> ok (endCap s).
-Proof.
-  intros [B1 B2] Hans. unfold endCap, transition.
-  destruct (fire gen.T08.EV_on_cap_end (fsm s)) as [t|] eqn:Ef; [|apply ok_raise; split; assumption].
-  destruct (cap_end_fire _ _ Ef) as [_ [Htl _]].
-  cbn [ret andthen]. unfold send, emit. cbn [andthen app].
-  split; cbn [rstate routs fst snd].
-  - split; cbn [set_fsm req ack nak ls fsm]; [exact B1|].
-    intro Ht. rewrite Ht in Htl. discriminate.
-  - constructor; [|constructor; [exact Logic.I|constructor]].
-    cbn [OutB set_fsm req ack nak]. apply sdiff_nil. intros x Hx. apply In_sunion. apply Hans. exact Hx.
+  destruct m as [args|args b e|code args|args|args|]; cbn [step].
+  - repeat (first [apply b_ls | apply b_ack | apply b_nak | apply b_new | apply b_del | okstep]).
+  - apply b_auth.
+  - unfold do903, do908, do376, do43x.
+    repeat (first [apply b_transition | apply b_endCap | apply b_tryNext | apply b_reconnect | okstep]).
+  - unfold doError. repeat (first [apply b_reconnect | okstep]).
+  - unfold doPing. repeat okstep.
+  - apply b_reset.
 Qed.
 
-Lemma InvB_with_sasl s nx cur : InvB c s -> InvB c (with_sasl s nx cur).
-Proof. intros [B1 B2]. split; assumption. Qed.
-Lemma InvB_set_dec s d : InvB c s -> InvB c (set_dec s d).
-Proof. intros [B1 B2]. split; assumption. Qed.
-Lemma InvB_set_after s : InvB c s -> InvB c (set_after s).
-Proof. intros [B1 B2]. split; assumption. Qed.
-
-(* leaving the SASL exchange: the only way back to INIT_CAP is from INIT_SASL *)
-Definition auth_finished_ok (tbl : list (N * N)) : bool :=
-  forallb (fun ft => negb (N.eqb (fst ft) 0) && (negb (N.eqb (snd ft) INIT_CAP) || N.eqb (fst ft) INIT_SASL)) tbl.
-Lemma auth_finished_current : auth_finished_ok gen.T08.EV_on_sasl_auth_finished = true.
-Proof. vm_compute. reflexivity. Qed.
-
-Lemma auth_finished_from x : fire gen.T08.EV_on_sasl_auth_finished x = Some INIT_CAP -> x = INIT_SASL.
+(* every history, from every state *)
+Theorem ok_run ms : forall s, Forall OutB (snd (run_msgs c s ms)).
 Proof.
-  intro Hf. destruct (fire_In _ _ _ Hf) as [f [Hin Hfx]].
-  pose proof auth_finished_current as Hc. unfold auth_finished_ok in Hc. rewrite forallb_forall in Hc.
-  specialize (Hc _ Hin). cbn [fst snd] in Hc. apply andb_true_iff in Hc as [H0 H1].
-  apply negb_true_iff in H0. destruct Hfx as [E|E]; [subst; discriminate|]. subst f.
-  change (N.eqb INIT_CAP INIT_CAP) with true in H1. cbn [negb orb] in H1. apply N.eqb_eq in H1. exact H1.
-Qed.
-
-(* after on_sasl_auth_finished: if we are back in INIT_CAP, nothing is outstanding *)
-Lemma finish_then_end s :
-  InvB c s ->
-  ok (transition gen.T08.EV_on_sasl_auth_finished s >>> fun s => if N.eqb (fsm s) INIT_CAP then endCap s else ret s).
-Proof.
-  intro H. pose proof H as [B1 B2]. unfold transition.
-  destruct (fire gen.T08.EV_on_sasl_auth_finished (fsm s)) as [t|] eqn:Ef; [|rewrite andthen_raise; apply ok_raise; exact H].
-  rewrite andthen_ret. cbn [set_fsm fsm].
-  assert (HI : InvB c (set_fsm s t)).
-  { split; cbn [set_fsm req ack nak ls fsm]; [exact B1|]. intro Ht. subst t.
-    pose proof tables_avoid_sasl as [_ [Hs _]]. pose proof (avoids_sasl_fire _ _ _ Hs Ef) as Hn. discriminate. }
-  destruct (N.eqb t INIT_CAP) eqn:Et; [|apply ok_ret; exact HI].
-  apply N.eqb_eq in Et. subst t. apply ok_endCap; [exact HI|].
-  apply answered_set_fsm. apply B2. apply auth_finished_from. exact Ef.
-Qed.
-
-Lemma ok_tryNextSasl s : InvB c s -> ok (tryNextSasl c s).
-Proof.
-  intro H. unfold tryNextSasl. okstep; [apply ok_expect; exact H|].
-  okstep.
-  - okstep; [apply ok_ret; assumption|]. apply finish_then_end. apply InvB_with_sasl. assumption.
-  - apply ok_send. apply InvB_with_sasl. assumption.
-Qed.
-
-Lemma ok_maybeStartSasl s : InvB c s -> answered s -> ok (maybeStartSasl c s).
-Proof.
-  intros H Hans. unfold maybeStartSasl. okstep; [|apply ok_ret; exact H].
-  okstep; [apply ok_transition_sasl; assumption|].
-  okstep; [|apply ok_raise; assumption].
-  apply ok_tryNextSasl. destruct o; [apply InvB_with_sasl|]; assumption.
-Qed.
-
-Lemma ok_capUpkeep s : InvB c s -> ok (capUpkeep c s).
-Proof.
-  intro H. unfold capUpkeep, expect.
-  destruct (mem (fsm s) gen.T08.EXPECT_capUpkeep); [|rewrite andthen_raise; apply ok_raise; exact H].
-  rewrite andthen_ret.
-  destruct (negb (ssubset (sunion (ack s) (nak s)) (req s))); [apply ok_reconnect; exact H|].
-  destruct (ssubset (req s) (sunion (ack s) (nak s))) eqn:Es; [|apply ok_ret; exact H].
-  assert (Hans : answered s).
-  { intros x Hx. apply In_sunion. eapply ssubset_In; [exact Es|exact Hx]. }
-  repeat (first [okstep | apply ok_maybeStartSasl | apply ok_endCap | assumption]).
-Qed.
-
-(* the capability sets only grow in ls / ack / nak: both parts of the invariant survive *)
-Lemma InvB_grow s l rq ak nk :
-  InvB c s ->
-  (forall x, In x (map fst (ls s)) -> In x (map fst l)) ->
-  (forall x, In x rq -> (In x (req s) \/ (smem x (c_wanted c) = true /\ In x (map fst l)))) ->
-  (forall x, In x (ack s) -> In x ak) -> (forall x, In x (nak s) -> In x nk) ->
-  (fsm s = INIT_SASL -> forall x, In x rq -> In x (req s)) ->
-  InvB c (set_caps s l rq ak nk).
-Proof.
-  intros [B1 B2] Hl Hr Ha Hn Hs. split; cbn [set_caps req ack nak ls fsm].
-  - intros x Hx. destruct (Hr x Hx) as [H|H]; [|exact H]. destruct (B1 x H) as [H1 H2]. split; [exact H1|apply Hl; exact H2].
-  - intros Hf x Hx. destruct (B2 Hf x (Hs Hf x Hx)) as [H|H]; [left; apply Ha|right; apply Hn]; exact H.
-Qed.
-
-Lemma InvB_set_ls s l : InvB c s -> (forall x, In x (map fst (ls s)) -> In x (map fst l)) -> InvB c (set_ls s l).
-Proof. intros H Hl. unfold set_ls. apply InvB_grow; auto. Qed.
-
-Lemma ok_onCapSts s policy : InvB c s -> ok (onCapSts c s policy).
-Proof.
-  intro H. unfold onCapSts. destruct tables_avoid_sasl as [_ [_ [_ [_ [_ S7]]]]].
-  okstep; [|apply ok_ret; exact H].
-  okstep; [apply ok_emit; [exact H|exact Logic.I]|].
-  okstep; [apply ok_transition; assumption|]. apply ok_reconnect. assumption.
-Qed.
-
-Lemma ok_addCapabilities items : forall s, InvB c s -> ok (addCapabilities c items s).
-Proof.
-  induction items as [|item items IH]; intros s H; cbn [addCapabilities]; [apply ok_ret; exact H|].
-  apply ok_andthen; [|intros s1 H1; apply IH; exact H1].
-  okstep.
-  - destruct p as [cap value]. okstep.
-    + okstep; [apply ok_onCapSts; exact H|apply ok_ret; exact H].
-    + apply ok_ret. apply InvB_set_ls; [assumption|]. intros x Hx. apply keys_dict_set. exact Hx.
-  - okstep.
-    + okstep; [apply ok_reconnect; exact H|apply ok_ret; exact H].
-    + apply ok_ret. apply InvB_set_ls; [assumption|]. intros x Hx. apply keys_dict_set. exact Hx.
-Qed.
-
-Lemma new_caps_sound s x :
-  In x (new_caps c s) -> smem x (c_wanted c) = true /\ In x (map fst (ls s)).
-Proof.
-  unfold new_caps, sdiff. intro H. apply filter_In in H as [H _]. apply filter_In in H as [H1 H2]. auto.
-Qed.
-
-Lemma ok_requestCaps s caps0 :
-  InvB c s -> fsm s <> INIT_SASL ->
-  (forall x, In x caps0 -> smem x (c_wanted c) = true /\ In x (map fst (ls s))) ->
-  ok (requestCaps s caps0).
-Proof.
-  intros H Hf Hc. unfold requestCaps.
-  set (sorted := sort_strs caps0).
-  set (caps := if smem s_echo sorted && negb (smem s_label (ack s))
-               then (if smem s_label (sremove s_echo sorted)
-                     then s_echo :: s_label :: sremove s_label (sremove s_echo sorted)
-                     else sremove s_echo sorted)
-               else sorted).
-  assert (Hsub : forall x, In x caps -> In x caps0).
-  { intros x Hx. unfold caps in Hx.
-    destruct (smem s_echo sorted && negb (smem s_label (ack s))) eqn:E.
-    - apply andb_true_iff in E as [E1 _]. apply smem_In in E1.
-      destruct (smem s_label (sremove s_echo sorted)) eqn:E2.
-      + apply smem_In in E2. apply In_sremove in E2.
-        destruct Hx as [Hx|[Hx|Hx]]; subst; [apply In_sort_strs; exact E1|apply In_sort_strs; exact E2|].
-        apply In_sort_strs. apply In_sremove in Hx. apply In_sremove in Hx. exact Hx.
-      + apply In_sort_strs. apply In_sremove in Hx. exact Hx.
-    - apply In_sort_strs. exact Hx. }
-  apply ok_fold.
-  - apply ok_emit; [|exact Logic.I]. apply InvB_grow; auto.
-    + intros x Hx. apply In_sunion in Hx as [Hx|Hx]; [left; exact Hx|right; apply Hc; apply Hsub; exact Hx].
-    + intro E. contradiction.
-  - intros s1 line H1. apply ok_emit; [exact H1|exact Logic.I].
-Qed.
-
-Lemma expect_ls_not_sasl : forallb (fun x => negb (N.eqb x INIT_SASL)) gen.T08.EXPECT_doCapLs = true.
-Proof. vm_compute. reflexivity. Qed.
-
-Lemma ok_doCapLs s args : InvB c s -> ok (doCapLs c s args).
-Proof.
-  intro H. unfold doCapLs.
-  destruct args as [|a0 [|a1 [|a2 [|a3 [|a4 r]]]]]; try (apply ok_ret; exact H).
-  - okstep; [apply ok_addCapabilities; exact H|].
-    okstep; [apply ok_ret; assumption|].
-    unfold expect. destruct (mem (fsm s0) gen.T08.EXPECT_doCapLs) eqn:Ex; [|rewrite andthen_raise; apply ok_raise; assumption].
-    rewrite andthen_ret.
-    assert (Hns : fsm s0 <> INIT_SASL).
-    { intro E. pose proof expect_ls_not_sasl as Hl. rewrite forallb_forall in Hl.
-      specialize (Hl _ (proj1 (mem_In _ _) Ex)). rewrite E in Hl. discriminate. }
-    destruct (new_caps c s0) as [|x nc] eqn:En.
-    + apply ok_endCap; [assumption|].
-      (* nothing wanted and advertised is unacknowledged, and everything requested was wanted and advertised *)
-      intros y Hy. left. destruct (b_req _ _ H0 y Hy) as [Hw Hk].
-      unfold new_caps in En. eapply sdiff_nil_inv; [exact En|]. apply filter_In. split; [exact Hk|exact Hw].
-    + apply ok_requestCaps; [assumption|exact Hns|]. intros y Hy. apply new_caps_sound. rewrite En. exact Hy.
-  - okstep; [apply ok_ret; exact H|apply ok_addCapabilities; exact H].
-Qed.
-
-Lemma ok_doCapAck s args : InvB c s -> ok (doCapAck c s args).
-Proof.
-  intro H. unfold doCapAck.
-  destruct args as [|a0 [|a1 [|a2 [|a3 r]]]]; try (apply ok_ret; exact H).
-  destruct (words a2); [apply ok_raise; exact H|]. apply ok_capUpkeep.
-  apply InvB_grow; auto. intros x Hx. apply In_sunion. left. exact Hx.
-Qed.
-
-Lemma ok_doCapNak s args : InvB c s -> ok (doCapNak c s args).
-Proof.
-  intro H. unfold doCapNak.
-  destruct args as [|a0 [|a1 [|a2 [|a3 r]]]]; try (apply ok_ret; exact H).
-  destruct (words a2); [apply ok_raise; exact H|]. apply ok_capUpkeep.
-  apply InvB_grow; auto. intros x Hx. apply In_sunion. left. exact Hx.
-Qed.
-
-Lemma ok_send_chunks s chunks : InvB c s -> ok (send_chunks s chunks).
-Proof.
-  intro H. unfold send_chunks. apply ok_fold; [apply ok_ret; exact H|].
-  intros s1 ch H1. apply ok_emit; [exact H1|exact Logic.I].
-Qed.
-
-Lemma ok_doAuthenticate s args b64ok empty : InvB c s -> ok (doAuthenticate c s args b64ok empty).
-Proof.
-  intro H. unfold doAuthenticate. okstep; [apply ok_expect; exact H|].
-  destruct args as [|chunk rest]; [apply ok_raise; apply InvB_set_dec; assumption|].
-  destruct (match dec s0 with Some d => d | None => ([], false) end) as [chunks ready].
-  repeat (first [ okstep
-                | apply ok_send_chunks; apply InvB_set_dec; assumption
-                | apply ok_send; apply InvB_set_dec; assumption
-                | apply InvB_set_dec; assumption
-                | assumption ]).
-Qed.
-
-Lemma ok_do903 s : InvB c s -> ok (do903 s).
-Proof.
-  intro H. unfold do903. apply finish_then_end. destruct H as [B1 B2]. split; assumption.
-Qed.
-
-Lemma ok_do376 s : InvB c s -> ok (do376 c s).
-Proof.
-  intro H. unfold do376. destruct tables_avoid_sasl as [_ [_ [_ [_ [S5 _]]]]].
-  okstep; [apply ok_transition; assumption|].
-  okstep; [apply ok_send|apply ok_ret]; apply InvB_set_after; assumption.
-Qed.
-
-Lemma ok_doError s args : InvB c s -> ok (doError c s args).
-Proof.
-  intro H. unfold doError. destruct args as [|t r]; [apply ok_raise; exact H|].
-  repeat (first [okstep | apply ok_reconnect | assumption]).
-Qed.
-
-(* the domain: no CAP NEW, no CAP DEL *)
-Definition no_newdel (m : inmsg) : bool :=
-  match m with
-  | ICap args => match cap_sub args with
-                 | Some sub => negb (seq_eqb sub [110;101;119]) && negb (seq_eqb sub [100;101;108])
-                 | None => true
-                 end
-  | _ => true
-  end.
-
-Theorem ok_step s m : no_newdel m = true -> InvB c s -> ok (step c s m).
-Proof.
-  intros Hd H. destruct tables_avoid_sasl as [_ [_ [_ [S4 _]]]].
-  destruct m as [args|args b64ok empty|code args|args|args|]; cbn [step].
-  - cbn [no_newdel] in Hd. destruct (cap_sub args) as [sub|]; [|apply ok_ret; exact H].
-    apply andb_true_iff in Hd as [Hn Hdl]. apply negb_true_iff in Hn, Hdl. rewrite Hn, Hdl.
-    repeat (first [okstep | apply ok_doCapLs | apply ok_doCapAck | apply ok_doCapNak | assumption]).
-  - apply ok_doAuthenticate. exact H.
-  - repeat (first [okstep | apply ok_do903 | apply ok_tryNextSasl | apply ok_transition
-                  | apply ok_do376 | apply ok_send | assumption]).
-    + unfold do908. destruct args as [|a [|b r]]; apply ok_raise; exact H.
-    + unfold do43x. destruct (after s); [apply ok_ret|apply ok_send]; exact H.
-  - apply ok_doError. exact H.
-  - unfold doPing. destruct args; [apply ok_raise|apply ok_send]; exact H.
-  - apply ok_reset.
-Qed.
-
-Theorem ok_run ms : forall s, forallb no_newdel ms = true -> InvB c s ->
-  InvB c (fst (run_msgs c s ms)) /\ Forall OutB (snd (run_msgs c s ms)).
-Proof.
-  induction ms as [|m ms IH]; intros s Hd H; [split; [exact H|constructor]|].
-  cbn [forallb] in Hd. apply andb_true_iff in Hd as [Hm Hd].
-  cbn [run_msgs]. destruct (ok_step s m Hm H) as [Hi Ho].
-  destruct (step c s m) as [[s1 o1] e1]. cbn [rstate routs fst snd] in Hi, Ho.
-  destruct (IH s1 Hd Hi) as [Hi2 Ho2]. destruct (run_msgs c s1 ms) as [s2 o2]. cbn [fst snd] in *.
-  split; [exact Hi2|apply Forall_app; split; assumption].
+  induction ms as [|m ms IH]; intro s; [constructor|].
+  cbn [run_msgs]. destruct (ok_step s m) as [_ Ho].
+  destruct (step c s m) as [[s1 o1] e1]. cbn [routs fst snd] in Ho.
+  specialize (IH s1). destruct (run_msgs c s1 ms) as [s2 o2]. cbn [snd] in *.
+  apply Forall_app; split; assumption.
 Qed.
 End B.
